@@ -392,6 +392,12 @@ def run(ctx):
         + [c_site_case(c, r) for c, r in zip(scases, sres)]
     ctx.log('evaluating the model on the same cases inside Coq')
     bad, errors = core.coq_eval_cases(ctx, header, CASE_TYPE, terms, 'C08.mismatches', chunk=200)
+    if any('inconsistent assumptions' in str(e.get('error')) for e in errors):
+        # another check rebuilt the shared .vo files (Gen/Params.v is regenerated per VERIF_REPO) while the
+        # case files were being compiled: rebuild under the lock and evaluate once more
+        ctx.log('compiled libraries changed under the case files (concurrent build): rebuilding and re-evaluating')
+        build_ok, obl, regen = core.std_setup(ctx)
+    bad, errors = core.coq_eval_cases(ctx, header, CASE_TYPE, terms, 'C08.mismatches', chunk=200, label='cases_retry')
     known = {k['signature'] for k in core.load_known() if k.get('property') == 'C08'}
     mismatches = []
     allcases = dcases + mcases + [{'site': {k: v for k, v in c.items() if k != 'base_xml'}} for c in scases]
